@@ -268,3 +268,6 @@ func verifParseYAML(src string) *yaml.Node {
 func verifDebug(label string, s string) { fmt.Printf("VERIF-DEBUG %s %s\n", label, strconv.Quote(s)) }
 
 func verifSetCwd(dir string) {}
+
+func verifRecordMapRangers(on bool) {}
+func verifMapRangers() []string     { return nil }
